@@ -60,7 +60,7 @@ class Cluster(Driver):
         groups_ = {'app': {'a': {}}} if cfg.get('rules') else {}
         sc = make_scenario(n, config=cfg.get('options'), nicks=cfg.get('nicks'), core=cfg.get('core'),
                            rules=RULES_AUTO if cfg.get('rules') else None, groups=groups_,
-                           node_of=cfg.get('node_of'))
+                           node_of=cfg.get('node_of'), set_order=cfg.get('set_order'))
         w = World(sc)
         opts = sc['config']
         q = '[supvisors_failure_strategy=SHUTDOWN]' if opts.get('supvisors_failure_strategy') == 'SHUTDOWN' else ''
@@ -80,7 +80,7 @@ class Cluster(Driver):
             w.sups[i].alive = False
         if cfg.get('warm'):
             # start from a non-initial state: a canonical fair run brings the cluster to OPERATION first
-            w.round_robin(cfg['warm'], settle=self.settle)
+            w.round_robin(cfg['warm'], settle=None if cfg.get('slow_start') else self.settle)
         w.budget['Tmax'] = w.round + cfg['T']
         # election history for the reference rule (C01 b): Master agreed before the disturbances, fault events
         hist = ElectionHistory()
@@ -94,7 +94,8 @@ class Cluster(Driver):
     # -- environment menu --------------------------------------------------------------------
     def env_events(self, w, cfg):
         evs = tick_menu(w, w.budget['Tmax'], cfg.get('drift', 1))
-        evs += w.proc_events(('run',))
+        if not cfg.get('slow_start'):
+            evs += w.proc_events(('run',))
         live = w.live()
         # a supervisord that received its restart/shutdown order ends (FINAL is transient)
         # (FINAL is "very transient": the halt comes before anything else in the environment menu, unless
@@ -154,7 +155,10 @@ class Cluster(Driver):
         if 'C16' in self.judge:
             out += errs
         elif errs:
-            return [dict(e, cut_only=True) for e in errs]
+            # the branch is cut; a violation of the judged property observed in this very step is still reported
+            # (the internal error is its cause, not a state the verdict is extrapolated from)
+            own = [v for v in viols if v['signature'].split(':', 1)[0] in self.judge]
+            return own + [dict(e, cut_only=True) for e in errs]
         for v in viols:
             prop = v['signature'].split(':', 1)[0]
             if prop in self.judge:
